@@ -11,7 +11,11 @@ use serde::{Deserialize, Serialize};
 use crate::rng::{mix, Rng};
 
 /// "minus infinity" of the reference model (no feasible completion)
-pub const NEG: isize = isize::MIN / 4;
+/// the reference model computes values-to-go in 128 bits: a legal model only needs its prefix and total values to fit an isize,
+/// its cost-to-go may leave that range (ddo's own suffix bounds then saturate)
+pub type Wide = i128;
+pub const NEG: Wide = Wide::MIN / 4;
+pub fn clamp_isize(x: Wide) -> isize { x.clamp(isize::MIN as Wide, isize::MAX as Wide) as isize }
 
 #[derive(Debug, Clone, Serialize, Deserialize, PartialEq, Eq)]
 pub enum Rub { None, Exact, Slack(isize) }
@@ -79,6 +83,9 @@ pub struct GenOpts {
     /// share (in quarters) of knapsack-shaped tables (base state = capacity used; heavy re-convergence, many layers)
     pub knapsack_quarters: u64,
     pub top_merge_quarters: u64,
+    /// one instance in `abyss_one_in` (0 = never) has arc costs around -2^61 and an initial value of 3 * 2^61: every prefix and total
+    /// value fits an isize but the cost-to-go of 4 or more arcs does not (ddo's suffix bounds saturate at isize::MIN)
+    pub abyss_one_in: u64,
 }
 
 impl Table {
@@ -155,7 +162,11 @@ impl Table {
         // one instance in ten lives far away from zero (very negative / very large initial value, costs scaled by 2^40): sums stay
         // below 2^60 in magnitude, so the reference arithmetic is exact and never meets the NEG sentinel (-2^61)
         let mut v0 = rng.range(-3, 3);
-        if rng.chance(1, 10) {
+        if o.abyss_one_in > 0 && n <= 6 && !top_merge && rng.chance(1, o.abyss_one_in) {
+            let base: isize = -(1isize << 61);
+            for l in 0..n { for a in 0..s { for x in 0..d { if !irrelevant[l][a] { cost[l][a][x] = base + cost[l][a][x].rem_euclid(8); } } } }
+            v0 = 3 * (1isize << 61);
+        } else if rng.chance(1, 10) {
             let sc: isize = 1 << 40;
             for l in 0..n { for a in 0..s { for x in 0..d { cost[l][a][x] *= sc; } } }
             v0 = match rng.below(3) { 0 => -(1isize << 55), 1 => 1isize << 55, _ => v0 * sc };
@@ -171,9 +182,9 @@ pub struct Inst {
     /// layer of a variable
     pub layer_of: Vec<usize>,
     /// hstar[l][a]: best value-to-go from base state a at layer l (NEG = dead end)
-    pub hstar: Vec<Vec<isize>>,
+    pub hstar: Vec<Vec<Wide>>,
     /// for depth-free states: max over layers of hstar[.][a]
-    pub hmax: Vec<isize>,
+    pub hmax: Vec<Wide>,
     /// sim[l][a][b]: base state a simulates base state b at layer l (greatest simulation)
     pub sim: Vec<Vec<Vec<bool>>>,
 }
@@ -182,14 +193,14 @@ impl Inst {
     pub fn new(t: Table) -> Inst {
         let mut layer_of = vec![0; t.n];
         for (l, v) in t.order.iter().enumerate() { layer_of[*v] = l; }
-        let mut hstar = vec![vec![0isize; t.s]; t.n + 1];
+        let mut hstar = vec![vec![0 as Wide; t.s]; t.n + 1];
         for l in (0..t.n).rev() {
             for a in 0..t.s {
                 let mut best = NEG;
                 for b in 0..t.d {
                     if let Some(x) = t.next[l][a][b] {
                         let h = hstar[l + 1][x as usize];
-                        if h > NEG { best = best.max(t.cost[l][a][b] + h); }
+                        if h > NEG { best = best.max(t.cost[l][a][b] as Wide + h); }
                     }
                 }
                 hstar[l][a] = best;
@@ -204,12 +215,12 @@ impl Inst {
         }
         Inst { t, layer_of, hstar, hmax, sim }
     }
-    pub fn opt(&self) -> Option<isize> { let h = self.hstar[0][0]; if h <= NEG { None } else { Some(self.t.v0 + h) } }
+    pub fn opt(&self) -> Option<isize> { let h = self.hstar[0][0]; if h <= NEG { None } else { Some(isize::try_from(self.t.v0 as Wide + h).expect("the generator keeps total values within isize")) } }
     pub fn root_state(&self) -> TState { self.state_of(0, 0) }
     pub fn state_of(&self, layer: usize, a: usize) -> TState { TState { layer: if self.t.depth_in_state { Some(layer as u8) } else { None }, set: 1 << a } }
     pub fn members(&self, set: u32) -> impl Iterator<Item = usize> + '_ { (0..self.t.s).filter(move |a| set >> a & 1 == 1) }
     /// best value-to-go of a set of base states known to be at `layer`
-    pub fn h_set(&self, layer: usize, set: u32) -> isize { self.members(set).map(|a| self.hstar[layer][a]).max().unwrap_or(NEG) }
+    pub fn h_set(&self, layer: usize, set: u32) -> Wide { self.members(set).map(|a| self.hstar[layer][a]).max().unwrap_or(NEG) }
     fn pot_set(&self, layer: usize, set: u32) -> isize {
         match &self.t.pot { Some(p) => self.members(set).map(|a| p[layer.min(self.t.n)][a]).max().unwrap_or(0), None => 0 }
     }
@@ -298,18 +309,18 @@ impl Inst {
         out
     }
     /// all complete trajectories from (l, a): list of (visited (layer, base state) pairs incl. start, total cost-to-go)
-    pub fn enumerate_completions(&self, l: usize, a: usize) -> Vec<(Vec<(usize, usize)>, isize)> {
+    pub fn enumerate_completions(&self, l: usize, a: usize) -> Vec<(Vec<(usize, usize)>, Wide)> {
         let mut out = vec![];
         let mut traj = vec![(l, a)];
         self.enum_rec(l, a, 0, &mut traj, &mut out);
         out
     }
-    fn enum_rec(&self, l: usize, a: usize, acc: isize, traj: &mut Vec<(usize, usize)>, out: &mut Vec<(Vec<(usize, usize)>, isize)>) {
+    fn enum_rec(&self, l: usize, a: usize, acc: Wide, traj: &mut Vec<(usize, usize)>, out: &mut Vec<(Vec<(usize, usize)>, Wide)>) {
         if l == self.t.n { out.push((traj.clone(), acc)); return; }
         for b in 0..self.t.d {
             if let Some(x) = self.t.next[l][a][b] {
                 traj.push((l + 1, x as usize));
-                self.enum_rec(l + 1, x as usize, acc + self.t.cost[l][a][b], traj, out);
+                self.enum_rec(l + 1, x as usize, acc + self.t.cost[l][a][b] as Wide, traj, out);
                 traj.pop();
             }
         }
@@ -368,10 +379,11 @@ impl Relaxation for TRelax<'_> {
             Some(l) => self.0.h_set(l as usize, st.set),
             None => self.0.members(st.set).map(|a| self.0.hmax[a]).max().unwrap_or(NEG),
         };
+        // an admissible bound may be clamped into the isize range (clamping a value below isize::MIN up to isize::MIN keeps it a bound)
         match self.0.t.rub {
             Rub::None => isize::MAX,
-            Rub::Exact => h,
-            Rub::Slack(k) => if h <= NEG { h } else { h + k },
+            Rub::Exact => clamp_isize(h),
+            Rub::Slack(k) => if h <= NEG { clamp_isize(h) } else { clamp_isize(h + k as Wide) },
         }
     }
 }
@@ -413,7 +425,7 @@ impl Dominance for TDom {
             let s = self.inst.t.s;
             match state.layer { Some(l) => self.inst.sim[l as usize][a][i] as isize, None => self.inst.sim[i / s][a][i % s] as isize }
         } else {
-            match state.layer { Some(l) => self.inst.hstar[l as usize][a], None => self.inst.hstar[i][a] }
+            match state.layer { Some(l) => clamp_isize(self.inst.hstar[l as usize][a]), None => clamp_isize(self.inst.hstar[i][a]) }
         }
     }
     fn use_value(&self) -> bool { true }
